@@ -123,6 +123,19 @@ theorem strx_print_parse_roundtrip (val : Nat) (out : Bytes) (hv : val < 2 ^ 32)
 example : uint32ToStrx 0xBEEF (List.replicate 4 0) = .ok (4, [0x42, 0x45, 0x45, 0x46]) := rfl
 example : uint32ToStrx 0 [7] = .ok (1, [0x30]) := rfl
 
+/-- `MHD_uint8_to_str_pad`: for every 8-bit value, every permitted `min_digits` (0..3) and every
+    buffer: the value in decimal, zero-padded on the left to `max (min_digits, 1)` digits, iff it
+    fits; 0 iff it does not.  (`padSpec` = `decDigits` with the padded digit count; the mirror of
+    the code's three stages equals it by `decide` over all 256 × 4 arguments.) -/
+theorem uint8ToStrPad_exact (val pad : Nat) (out : Bytes) (hv : val < 256) (hp : pad ≤ 3) :
+    Wrote (uint8ToStrPad val pad out) out
+      (if (padSpec val pad).length ≤ out.length then some (padSpec val pad) else none) :=
+  uint8ToStrPad_spec val pad out hv hp
+
+example : uint8ToStrPad 7 3 (List.replicate 3 0) = .ok (3, [0x30, 0x30, 0x37]) := rfl
+example : uint8ToStrPad 7 3 (List.replicate 2 0) = .ok (0, [0x30, 0x30]) := rfl
+example : padSpec 205 0 = [0x32, 0x30, 0x35] ∧ padSpec 5 2 = [0x30, 0x35] := by decide
+
 example : uint64ToStr 1234 (List.replicate 4 0) = .ok (4, [0x31, 0x32, 0x33, 0x34]) := rfl
 example : uint64ToStr 1234 (List.replicate 3 0) = .ok (0, [0x31, 0x32, 0x33]) := rfl
 
